@@ -260,6 +260,9 @@ def duplex_strategy(tier):
 def check_history(c):
     k = make(c)
     for i, (M, L) in enumerate(c["msgs"]):
+        if L is not None and L > 8 * len(M):
+            attempt(k, M, bitlen=L)       # over-long bit length: refused or not, only the calls after it are judged
+            continue
         got = call(k, M, L)
         Leff = 8 * len(M) if L is None else L
         exp = R.keccak(c["b"], c["r"], M, Leff, c["d"], c["nist"])
@@ -273,10 +276,12 @@ def history_strategy(tier):
         r = [x for x in (8, 16, 24, 40, 64, 136, 576, 1088) if x <= top][rk % len([x for x in (8, 16, 24, 40, 64, 136, 576, 1088) if x <= top])]
         out = []
         for M, lm in msgs:
-            out.append((M, None if lm == 0 or not M else 8 * len(M) - lm % 8))
+            out.append((M, 8 * len(M) + 3 if lm == 9 else None if lm == 0 or not M else 8 * len(M) - lm % 8))
+        if out[-1][1] is not None and out[-1][1] > 8 * len(out[-1][0]):
+            out.append((b"after", None))
         return {"b": b, "r": r, "d": d, "nist": nist, "msgs": tuple(out)}
     return st.builds(build, st.sampled_from([200, 400, 800, 1600]), gen.uint(0, 7), st.sampled_from([8, 64, 256, 300]), st.booleans(),
-                     st.lists(st.tuples(gen.blob_of(gen.uint(0, 40)), gen.uint(0, 9)), min_size=2, max_size=4))
+                     st.lists(st.tuples(gen.blob_of(gen.uint(0, 40)), gen.uint(0, 10)), min_size=2, max_size=4))
 
 
 FACETS = [
@@ -303,7 +308,8 @@ FACETS = [
           rule="1..4 (10) duplexing calls on one object (input 0..r-2 bits, output 1..r bits) against the reference duplex object after every call; "
                "an input longer than r-2 bits must be refused; ordinary hash calls on the same object are interleaved and must neither disturb nor be disturbed"),
     Facet("reused-object", check_history, strategy=history_strategy, budget={"quick": 300, "thorough": 8000},
-          shards={"quick": 16, "thorough": 32}, nontrivial=lambda c: True, classify=lambda c: ("b=%d" % c["b"],),
-          rule="2..4 messages hashed one after the other by ONE sponge object"),
+          shards={"quick": 16, "thorough": 32}, nontrivial=lambda c: True,
+          classify=lambda c: ("b=%d" % c["b"], "has over-long bitlen call" if any(L is not None and L > 8 * len(M) for M, L in c["msgs"]) else "all calls valid"),
+          rule="2..5 messages hashed one after the other by ONE sponge object; one call in ten passes a bit length beyond the data (not judged, the calls after it are)"),
 ]
 WEIGHT = {"sponge-random": 8, "sponge-small-exhaustive": 6, "fips202-sweep": 5}
